@@ -25,6 +25,7 @@ structure Rel (a b : St) : Prop where
   seq : a.seq = b.seq
   dirty : a.dirty = b.dirty
   tdirty : a.tantivyDirty = b.tantivyDirty
+  lexw : a.lexWritten = b.lexWritten
   gen : a.gen = b.gen
   stale : a.stale = b.stale
 
@@ -37,7 +38,7 @@ structure Inv (s : St) : Prop where
     segment names or of how the documents are spread over segments -/
 def EngineDet (E : Engine) : Prop := ∀ a b q, (flat a).Perm (flat b) → E a q = E b q
 
-theorem Rel.refl (a : St) : Rel a a := ⟨rfl, rfl, rfl, rfl, rfl, rfl, rfl, rfl, rfl, rfl, rfl, rfl⟩
+theorem Rel.refl (a : St) : Rel a a := ⟨rfl, rfl, rfl, rfl, rfl, rfl, rfl, rfl, rfl, rfl, rfl, rfl, rfl⟩
 
 theorem map_isEmpty {α β} (f : α → β) (l : List α) : (l.map f).isEmpty = l.isEmpty := by cases l <;> rfl
 
@@ -150,6 +151,12 @@ theorem inv_commit (o : Oracles) (s : St) (i : Inv s) : Inv (commit o s) := by
       · exact ⟨layout_perm _ _ _ _, layout_nonempty _ _ _ _⟩
       · split <;> exact ⟨i.perm, i.nonempty⟩
 
+theorem inv_dropCommit (o : Oracles) (s : St) (i : Inv s) : Inv (dropCommit o s) := by
+  unfold dropCommit
+  split
+  · exact inv_commit o s i
+  · exact i
+
 theorem inv_step (E : Engine) (o : Oracles) (s : St) (op : Op) (i : Inv s) : Inv (step E o s op).1 := by
   cases op with
   | put ts p u instant trip =>
@@ -191,7 +198,7 @@ theorem inv_step (E : Engine) (o : Oracles) (s : St) (op : Op) (i : Inv s) : Inv
   | commit => exact inv_commit o s i
   | reopen =>
     simp only [step]
-    have := inv_commit o s i
+    have := inv_dropCommit o s i
     split
     · exact ⟨this.perm, this.nonempty⟩
     · exact this
@@ -211,14 +218,21 @@ theorem rel_commit (o₁ o₂ : Oracles) (a b : St) (r : Rel a b) (ia : Inv a) (
   · simp only
     rw [r.lex]
     split
-    · exact ⟨rfl, hfr, rfl, r.wal, r.cards, r.enrich, r.docs, r.seq, rfl, rfl, by simp [r.gen], by simp [r.stale, r.docs, r.gen, hce]⟩
+    · exact ⟨rfl, hfr, rfl, r.wal, r.cards, r.enrich, r.docs, r.seq, rfl, rfl, r.lexw, by simp [r.gen], by simp [r.stale, r.docs, r.gen, hce]⟩
     · split
-      · refine ⟨rfl, hfr, rfl, ?_, r.cards, r.enrich, by rw [hfr], by simp [r.seq], rfl, rfl, by simp [r.gen], by simp [r.stale, r.docs, r.gen, hce]⟩
+      · refine ⟨rfl, hfr, rfl, ?_, r.cards, r.enrich, by rw [hfr], by simp [r.seq], rfl, rfl, rfl, by simp [r.gen], by simp [r.stale, r.docs, r.gen, hce]⟩
         simp only [List.map_append, List.map_cons, List.map_nil, Rec.low, map_isEmpty, layout_isEmpty, r.wal, hfr]
       · split
-        · refine ⟨rfl, r.frames, r.pending, ?_, r.cards, r.enrich, r.docs, by simp [r.seq], rfl, rfl, by simp [r.gen], by simp [r.stale, r.docs, r.gen, hce]⟩
+        · refine ⟨rfl, r.frames, r.pending, ?_, r.cards, r.enrich, r.docs, by simp [r.seq], rfl, rfl, rfl, by simp [r.gen], by simp [r.stale, r.docs, r.gen, hce]⟩
           simp only [List.map_append, List.map_cons, List.map_nil, Rec.low, map_isEmpty, segs_isEmpty_of_inv ia, segs_isEmpty_of_inv ib, r.docs, r.wal]
-        · exact ⟨rfl, r.frames, r.pending, r.wal, r.cards, r.enrich, r.docs, r.seq, rfl, rfl, by simp [r.gen], by simp [r.stale, r.docs, r.gen, hce]⟩
+        · exact ⟨rfl, r.frames, r.pending, r.wal, r.cards, r.enrich, r.docs, r.seq, rfl, rfl, r.lexw, by simp [r.gen], by simp [r.stale, r.docs, r.gen, hce]⟩
+
+theorem rel_dropCommit (o₁ o₂ : Oracles) (a b : St) (r : Rel a b) (ia : Inv a) (ib : Inv b) : Rel (dropCommit o₁ a) (dropCommit o₂ b) := by
+  unfold dropCommit
+  rw [r.dirty]
+  split
+  · exact rel_commit o₁ o₂ a b r ia ib
+  · exact r
 
 theorem search_eq (E : Engine) (hE : EngineDet E) (a b : St) (r : Rel a b) (ia : Inv a) (ib : Inv b) (q : Nat) :
     E a.segs q = E b.segs q := by
@@ -231,7 +245,7 @@ set_option hygiene false in
 local macro "rel_close" : tactic =>
   `(tactic| (constructor <;>
       simp only [List.map_append, List.map_cons, List.map_nil, Rec.low, r.lex, r.frames, r.pending, r.wal, r.cards, r.enrich,
-        r.docs, r.seq, r.dirty, r.tdirty, r.gen, r.stale, autoCards_low o₁ o₂ a.kClock b.kClock]))
+        r.docs, r.seq, r.dirty, r.tdirty, r.lexw, r.gen, r.stale, autoCards_low o₁ o₂ a.kClock b.kClock]))
 
 theorem rel_step (E : Engine) (hE : EngineDet E) (o₁ o₂ : Oracles) (a b : St) (op : Op) (r : Rel a b) (ia : Inv a) (ib : Inv b) :
     Rel (step E o₁ a op).1 (step E o₂ b op).1 ∧ (step E o₁ a op).2 = (step E o₂ b op).2 := by
@@ -274,11 +288,11 @@ theorem rel_step (E : Engine) (hE : EngineDet E) (o₁ o₂ : Oracles) (a b : St
   | commit => exact ⟨rel_commit o₁ o₂ a b r ia ib, rfl⟩
   | reopen =>
     simp only [step]
-    have rc := rel_commit o₁ o₂ a b r ia ib
+    have rc := rel_dropCommit o₁ o₂ a b r ia ib
     refine ⟨?_, trivial⟩
     rw [rc.lex]
     split
-    · exact ⟨rfl, rc.frames, rc.pending, rc.wal, rc.cards, rc.enrich, rc.docs, rc.seq, rc.dirty, rc.tdirty, rc.gen, rc.stale⟩
+    · exact ⟨rfl, rc.frames, rc.pending, rc.wal, rc.cards, rc.enrich, rc.docs, rc.seq, rc.dirty, rfl, rc.lexw, rc.gen, rc.stale⟩
     · exact rc
   | search q =>
     simp only [step]
@@ -297,7 +311,7 @@ theorem rel_runFrom (E : Engine) (hE : EngineDet E) (o₁ o₂ : Oracles) (h : L
 
 theorem rel_create (lex : Bool) (o₁ o₂ : Oracles) : Rel (create lex o₁) (create lex o₂) := by
   unfold create
-  split <;> exact ⟨rfl, rfl, rfl, rfl, rfl, rfl, rfl, rfl, rfl, rfl, rfl, rfl⟩
+  split <;> exact ⟨rfl, rfl, rfl, rfl, rfl, rfl, rfl, rfl, rfl, rfl, rfl, rfl, rfl⟩
 
 theorem rel_run (E : Engine) (hE : EngineDet E) (lex : Bool) (o₁ o₂ : Oracles) (h : List Op) :
     Rel (run E lex o₁ h).1 (run E lex o₂ h).1 ∧ (run E lex o₁ h).2 = (run E lex o₂ h).2
@@ -307,7 +321,7 @@ theorem rel_run (E : Engine) (hE : EngineDet E) (lex : Bool) (o₁ o₂ : Oracle
 theorem rel_final (E : Engine) (hE : EngineDet E) (lex : Bool) (o₁ o₂ : Oracles) (h : List Op) :
     Rel (final E lex o₁ h) (final E lex o₂ h) ∧ Inv (final E lex o₁ h) ∧ Inv (final E lex o₂ h) := by
   have := rel_run E hE lex o₁ o₂ h
-  exact ⟨rel_commit o₁ o₂ _ _ this.1 this.2.2.1 this.2.2.2, inv_commit _ _ this.2.2.1, inv_commit _ _ this.2.2.2⟩
+  exact ⟨rel_dropCommit o₁ o₂ _ _ this.1 this.2.2.1 this.2.2.2, inv_dropCommit _ _ this.2.2.1, inv_dropCommit _ _ this.2.2.2⟩
 
 theorem observe_eq (E : Engine) (hE : EngineDet E) (qs : List Nat) (a b : St) (r : Rel a b) (ia : Inv a) (ib : Inv b) :
     observe E qs a = observe E qs b := by
@@ -382,10 +396,10 @@ theorem segs_nil {s : St} (i : Inv s) (h : s.docs.isEmpty = true) : s.segs = [] 
   exact List.isEmpty_iff.mp this
 
 theorem lex_eq (X : Enc) {a b : St} (r : Rel a b) (ia : Inv a) (ib : Inv b) (h : lexTainted a = false) :
-    a.segs = b.segs ∧ lexRegion X a.lex a.segs = lexRegion X b.lex b.segs := by
+    a.segs = b.segs ∧ lexRegion X (a.lex && a.lexWritten) a.segs = lexRegion X (b.lex && b.lexWritten) b.segs := by
   have ha : a.docs.isEmpty = true := by simpa [lexTainted] using h
   have hb : b.docs.isEmpty = true := by rw [← r.docs]; exact ha
-  rw [segs_nil ia ha, segs_nil ib hb, r.lex]
+  rw [segs_nil ia ha, segs_nil ib hb, r.lex, r.lexw]
   exact ⟨rfl, rfl⟩
 
 theorem mem_eq (X : Enc) (hX : HashLaw X) (o₁ o₂ : Oracles) {a b : St} (r : Rel a b) (h : memTainted a = false) :
@@ -529,6 +543,12 @@ theorem quiet_commit (o : Oracles) (s : St) (q : Quiet s) : Quiet (commit o s) :
   · simp only [q.lex, Bool.not_false, if_true]
     exact ⟨rfl, q.wal, rfl, q.cards, q.enrich, q.docs, by simp [q.stale, q.docs, q.cards]⟩
 
+theorem quiet_dropCommit (o : Oracles) (s : St) (q : Quiet s) : Quiet (dropCommit o s) := by
+  unfold dropCommit
+  split
+  · exact quiet_commit o s q
+  · exact q
+
 theorem quiet_step (E : Engine) (o : Oracles) (s : St) (op : Op) (q : Quiet s) (hq : quietOp op = true) : Quiet (step E o s op).1 := by
   cases op with
   | put ts p u instant trip =>
@@ -547,7 +567,7 @@ theorem quiet_step (E : Engine) (o : Oracles) (s : St) (op : Op) (q : Quiet s) (
   | commit => exact quiet_commit o s q
   | reopen =>
     simp only [step]
-    have := quiet_commit o s q
+    have := quiet_dropCommit o s q
     rw [this.lex]
     exact this
   | search q' => exact q
@@ -562,7 +582,7 @@ theorem quiet_runFrom (E : Engine) (o : Oracles) (h : List Op) (s : St) (q : Qui
     exact ih _ (quiet_step E o s op q hq.1) hq.2
 
 theorem quiet_final (E : Engine) (o : Oracles) (h : List Op) (hq : h.all quietOp = true) : Quiet (final E false o h) := by
-  apply quiet_commit
+  apply quiet_dropCommit
   apply quiet_runFrom E o h _ _ hq
   exact ⟨rfl, rfl, rfl, rfl, rfl, rfl, rfl⟩
 
